@@ -45,3 +45,26 @@ Example C09_pos_pack_example :
   (Offset p, Line p, Col p, IsValid p) = (4294967284, 262143, 16383, true) /\
   (Line (NewPos 5 262144 7), Col (NewPos 5 6 16384), Offset (NewPos 4294967290 1 1)) = (0, 0, 4294967284).
 Proof. vm_compute. split; reflexivity. Qed.
+
+(* C09_linecol — every position the reader hands out is pos_of_offset of its offset:
+     forall input obq obqd, Forall (fun o => match o with ORune _ _ p | OErr p => pos_agrees input p = true end)
+                                   (atrace obq obqd input)
+   (and by C07_rune_stream the same for every schedule).  NOT PROVED in this development (open item):
+   it was REFUTED by the model of the unrepaired code (after backslash-CR-LF every column of the next
+   line was one too large, backslash-LF had the offset of LF with the column of the backslash, rune()
+   after EOF moved the column, the invalid-UTF-8 error used the previous rune's width) — repaired by
+   fix: commits d9731e1, bfde4b1, 478c986 (known_findings.jsonl).  On the repaired model it is
+   evaluated in the kernel on those witnesses (below), compared with the real code on every run by the
+   C07 code leg (raw nextPos after every operation) and tested directly by the C07 harness on every
+   generated reader case (clause linecol_disagrees_with_offset) and by the tree search of this check. *)
+Definition obs_ok (input : str) (o : obs) : bool :=
+  match o with ORune _ _ p => pos_agrees input p | OErr p => pos_agrees input p end.
+
+Example C09_linecol_fixed_witnesses :
+  forallb (fun i => forallb (obs_ok i) (atrace 0 0 i) && forallb (obs_ok i) (trace 1024 0 0 i [1;1;0;2;1]%nat true))
+    [ [36;92;13;10;97];                      (* $\<CR><LF>a *)
+      [34;102;111;111;92;10;32;32;98;97;114;34];  (* "foo\<LF>  bar" *)
+      [92]; [97;32;92];                      (* lone backslash at EOF *)
+      [195;169;255];                         (* invalid UTF-8 after a two-byte rune *)
+      [97;0;98;13;10;99;92;13;10;100;10;240;159;152;128;101] ] = true.
+Proof. vm_compute. reflexivity. Qed.
